@@ -38,6 +38,7 @@ def main():
     def fail(name, **d):
         f = failing.setdefault(name, dict(name=name, n_violations=0, violations=[]))
         f["n_violations"] += 1
+        f.setdefault("inputs", []).append(__import__("_fp").fingerprint(d))
         if len(f["violations"]) < 2:
             f["violations"].append(d)
 
